@@ -937,6 +937,9 @@ func stateEndTop(s *Scanner, c byte) state {
 			// next character, whether or not the last value is still open in
 			// the stack, so that Length() always finds it one past this one.
 			s.hasTrailingCharacters = true
+			// Whatever guard was wrapped around this state (the line after
+			// an inline annotation refuses "/") does not apply to foreign text.
+			s.step = stateEndTop
 			return scanContinue
 		} else if s.annotation == annotationNone {
 			panic(s.newDocumentErrorAtCharacter("non-space byte after top-level value"))
